@@ -6,6 +6,9 @@ import GqlgenVerif.Model.Imports
 import GqlgenVerif.Gen.ResolverImports
 import GqlgenVerif.Model.Regenerate
 import GqlgenVerif.Gen.GenerateSteps
+import GqlgenVerif.Model.PerSchema
+import GqlgenVerif.Gen.PerSchemaSteps
+import GqlgenVerif.Model.ExtraFields
 /-! Line-protocol driver for C18: the order model on the harness's cases.
 
   order <decl>|<decl>…   the package-level identifiers of the model file in the order the generator must write them
@@ -23,6 +26,13 @@ import GqlgenVerif.Gen.GenerateSteps
                          tree model of Model/Regenerate.lean: schema types that need a Go type, types declared by
                          hand-written files of the model package (`-` = none), model package autobound; answer
                          `first=ok|fail models=a,b|- exec=0|1 second=ok|fail models=… exec=…`
+  pins <pass>=<file>@<src>,…;<pass>=… <dir>@<src>,…|- <file>,…   generatePerSchema on the model of Model/PerSchema.lean:
+                         per pass (addObjects, addInputs, addInterfaces, addReferencedTypes) its elements in DELIVERY order
+                         (output file @ schema source); the passes run in the order regenerated in Gen/PerSchemaSteps;
+                         directives with arguments (name @ source); answer `covered=0|1 <file>=<pinned src|->:<dir>,…;…`
+                         (which source each queried output file is pinned to and the dir_<name>_args functions it gets)
+  xf <name>/<type>,…|- <type>,…|-   getExtraFields: named extra fields in the order the map delivered them, embedded ones;
+                         answer: the struct's extra fields in order, `name` or `~type`
 -/
 open GqlgenVerif GqlgenVerif.Naming
 namespace Driver.C18
@@ -79,8 +89,32 @@ def showRun (r : Regenerate.Tree × Bool) : String :=
 
 def names (s : String) : List String := if s = "-" || s = "" then [] else s.splitOn ","
 
+def parseElems (s : String) : List PerSchema.Elem :=
+  (names s).filterMap fun x => match x.splitOn "@" with | [f, src] => some ⟨f, src⟩ | _ => none
+
+def pinsOp (data dirs files : String) : String :=
+  let passData : List (String × List PerSchema.Elem) := (data.splitOn ";").filterMap fun s =>
+    match s.splitOn "=" with | [n, els] => some (n, parseElems els) | _ => none
+  let run : PerSchema.Run := Gen.PerSchemaSteps.passes.map fun p =>
+    (p.kind, ((passData.find? (·.1 == p.name)).map (·.2)).getD [])
+  let b := PerSchema.pins (PerSchema.delivered run)
+  let ds : List PerSchema.ArgDirective := (names dirs).filterMap fun x =>
+    match x.splitOn "@" with | [n, src] => some ⟨n, src⟩ | _ => none
+  "covered=" ++ (if PerSchema.coveredB (PerSchema.slicePart run) (PerSchema.mapPart run) then "1" else "0") ++ " "
+    ++ ";".intercalate ((names files).map fun f =>
+        f ++ "=" ++ (b f).getD "-" ++ ":" ++ ",".intercalate (PerSchema.argFuncs ds b f))
+
+def xfOp (named embedded : String) : String :=
+  let ns : List ExtraFields.XField := (names named).filterMap fun x =>
+    match x.splitOn "/" with | n :: t => some ⟨asciiName n, asciiName ("/".intercalate t)⟩ | _ => none
+  let es : List ExtraFields.XField := (names embedded).map fun t => ⟨[], asciiName t⟩
+  ",".intercalate ((ExtraFields.extraFields ns es).map fun f =>
+    if f.name.isEmpty then "~" ++ Driver.ascii f.typ else Driver.ascii f.name)
+
 def step (line : String) : String :=
   match line.splitOn " " with
+  | ["pins", data, dirs, files] => pinsOp data dirs files
+  | ["xf", named, embedded] => xfOp named embedded
   | ["gen2", ts, hand, ab] =>
     let p : Regenerate.Project := ⟨names ts, names hand, ab == "1"⟩
     let r1 := Regenerate.run Gen.GenerateSteps.steps p Regenerate.clean
